@@ -54,8 +54,15 @@ def gen_fields(rng, kind):
     return fields
 
 
+_CUR_KIND = [None]
+
+
 def _pred(rng, f, fields):
     r = rng.random()
+    if _CUR_KIND[0] == "typeddict" and r >= 0.85:
+        # adaptix keeps Required[...] / NotRequired[...] in TypedDict field types, so class predicates do not see the wrapped type
+        # (recorded under C17: the kinds differ); C03 keeps to predicates whose meaning is the same for every kind
+        r = 0.0
     if r < 0.6:
         return L.Pred("id", f.name)
     if r < 0.85:
@@ -140,6 +147,7 @@ def _extractor(obj):
 
 def gen_program(rng, ctx):
     kind = rng.choice(["dataclass"] * 5 + ["namedtuple", "attrs", "typeddict", "pydantic"])
+    _CUR_KIND[0] = kind
     for _ in range(30):
         fields = gen_fields(rng, kind)
         extra_field = None
